@@ -2403,7 +2403,7 @@ class EdgeQLSourceGenerator(codegen.SourceGenerator):
             self.write(')')
             self.write(' -> ')
             self.write(node.returning_typemod.to_edgeql(), ' ')
-            self.visit(node.returning)
+            self._ddl_visit_type_before_body(node.returning)
 
             if node.abstract:
                 if node.commands:
